@@ -560,6 +560,12 @@ def _driven_loop(f, cfg, w, hb, cond):
     """('ok'|'stuck'|'nostop'|'unknown', variable, reason) for a loop that is not a canonical counting for-loop"""
     if cond is None:
         return ("unknown", None, "no condition")
+    try:
+        trs = [t for t in loops.traversals(w) if t.ptr]
+    except Exception:
+        trs = []
+    if trs:
+        return ("ok", trs[0].var, "pointer walk: %s, one step per round" % trs[0].describe())
     parts = [cond, w.child("body")] + ([w.child("inc")] if w.k == "ForStmt" else [])
     movers = {}
     for part in parts:
@@ -603,6 +609,8 @@ def _driven_loop(f, cfg, w, hb, cond):
                 continue
             a, b = c.children[0].strip(), c.children[1].strip()
             op = c.j["op"]
+            if a.k == "UnaryOperator" and a.j.get("op") in ("++", "--") and a.children[0].strip().k == "DeclRefExpr":
+                a = a.children[0].strip()          # while (++p < end): the step sits in the test itself
             if b.k == "DeclRefExpr" and b.j.get("name") == v and a.k != "DeclRefExpr":
                 a, b, op = b, a, {"<": ">", "<=": ">=", ">": "<", ">=": "<=", "!=": "!="}[op]
             if not (a.k == "DeclRefExpr" and a.j.get("name") == v):
